@@ -854,6 +854,9 @@ ServeBegin(id) ==
   /\ IF srv.done \/ srv.closed
        THEN /\ Done(id, "ErrServerClosed")
             /\ UNCHANGED <<srv, pm, fsm>>
+     ELSE IF srv.serving                      \* a Serve call is running: refused, nothing is started twice
+       THEN /\ Done(id, "err")
+            /\ UNCHANGED <<srv, pm, fsm>>
        ELSE /\ srv' = [srv EXCEPT !.serving = TRUE, !.servePc = "running", !.serveCall = id,
                                   !.accPc = "idle"]
             /\ pm' = [p \in Peers |-> IF p \in srv.reg THEN StartedPM(p) ELSE pm[p]]
